@@ -213,6 +213,62 @@ Section Parse.
   Definition check_fails (its : list item) : bool := existsb is_error its.
 End Parse.
 
+(* ---- a whole play file: ParseByLine = bufio.Scanner with ScanLines over the bytes of the file.
+        A line ends at \n; a text that does not end in \n has one more, unterminated, line (kept when
+        it is not empty); one trailing \r is dropped from every line (dropCR); a raw line of 65536
+        bytes or more does not fit the scanner's buffer (bufio.MaxScanTokenSize): scanning stops
+        there with ErrTooLong, the lines before it have been delivered, LoadFile returns the error
+        and `relay file` refuses the play file. ---- *)
+Definition is_nl (c : ascii) : bool := (code c =? 10)%N.
+Definition is_cr (c : ascii) : bool := (code c =? 13)%N.
+
+Fixpoint raw_lines (s : string) : list string :=
+  match s with
+  | EmptyString => []
+  | String c r =>
+      if is_nl c then EmptyString :: raw_lines r
+      else match raw_lines r with
+           | [] => [String c EmptyString]
+           | l :: ls => String c l :: ls
+           end
+  end.
+
+Fixpoint drop_cr (l : string) : string :=
+  match l with
+  | EmptyString => EmptyString
+  | String c r =>
+      match r with
+      | EmptyString => if is_cr c then EmptyString else l
+      | _ => String c (drop_cr r)
+      end
+  end.
+
+Fixpoint lenN (s : string) : N :=
+  match s with EmptyString => 0%N | String _ r => N.succ (lenN r) end.
+
+Definition max_token : N := 65536.
+
+(* the lines the scanner hands out, and whether it stopped on a line that is too long *)
+Fixpoint scan_ok (ls : list string) : list string * bool :=
+  match ls with
+  | [] => ([], false)
+  | l :: r =>
+      if (max_token <=? lenN l)%N then ([], true)
+      else let (a, b) := scan_ok r in (drop_cr l :: a, b)
+  end.
+
+Definition file_lines (text : string) : list string * bool := scan_ok (raw_lines text).
+
+Section Load.
+  Variable parse_dur : string -> option Z.
+  Variable regex_ok : string -> bool.
+  Variable atoi : string -> option Z.
+
+  (* LoadFile: the items, in order, and "ParseByLine returned an error" *)
+  Definition load_text (text : string) : list item * bool :=
+    let (ls, too_long) := file_lines text in (parse_file parse_dur regex_ok atoi ls, too_long).
+End Load.
+
 (* ================================================================================================
    The DECLARATIVE grammar of a play-file line, written from cmd/relay/README.md (PLAYFILE FORMAT),
    for a text line (no newline inside).  Where the README is silent the behaviour of the code
